@@ -37,6 +37,12 @@ func vxLeafType(id string, shapes []int) (ast.BaseTerm, bool) {
 		return ast.NameBound, true
 	case 4:
 		return ast.Float64Bound, true
+	case 7:
+		return ast.TimeBound, true
+	case 8:
+		return ast.DurationBound, true
+	case 9:
+		return ast.BytesBound, true
 	case 5:
 		n := 1
 		if vxParam("ENUMNAMES", 0) == 0 {
@@ -56,7 +62,7 @@ func vxLeafType(id string, shapes []int) (ast.BaseTerm, bool) {
 	panic("leaf")
 }
 
-var vxAllLeaves = []int{0, 1, 2, 3, 4, 5, 6}
+var vxAllLeaves = []int{0, 1, 2, 3, 4, 5, 6, 7, 8, 9}
 var vxFewLeaves = []int{0, 1, 3, 5}
 
 // composite constructors: 0 pair 1 list 2 option 3 map 4 struct(required) 5 struct(required+optional) 6 tuple3 7 tagged union
@@ -110,7 +116,13 @@ func vxComposite(id string, ctor int) (ast.BaseTerm, bool) {
 
 // vxLeafConst: 0 number 1 one-byte string 2 name (symbolic) 3 float 1.5
 func vxLeafConst(id string) (ast.Constant, bool) {
-	switch vxChoose(id+"_c", 4) {
+	switch vxChoose(id+"_c", 7) {
+	case 4:
+		return ast.Time(vxInt64(id + "_t")), true
+	case 5:
+		return ast.Duration(vxInt64(id + "_d")), true
+	case 6:
+		return ast.Bytes(vxBytes(id+"_b", 1)), true
 	case 0:
 		if vxParam("ENUMNAMES", 0) == 1 {
 			return ast.Number(7), true
